@@ -47,3 +47,21 @@ contract(
     serves=["C03"],
     note="the shape primitive int parts are coerced to: key condition for mappings, index condition for lists, null value condition",
 )
+
+
+# a map-or-list part whose *generic* condition is a key or an index condition: it applies to mappings only / lists only
+contract(
+    "valida.datapath:MapOrListValue.filter#generic",
+    variants=[dict(self=Obj(MapOrListValue, condition=LeafShape(c), map_condition=Obj(cnds.NullCondition),
+                            list_condition=Obj(cnds.NullCondition), label=Const(None)), data=d, _kind=Const(k), _on=Const(on))
+              for c, on in ((cnds.Key, "key"), (cnds.Index, "index"), (cnds.Value, "value")) for k, d in DOCS],
+    ensures=lambda self, data, result, _on, _kind:
+        len(result.result) == len(data)
+        and forall_idx(len(data), lambda j: same(result.result[j], Meaning(
+            self.condition, (list(data.keys())[j] if _on == "key" else (list(data.values())[j] if _kind == "dict" else data[j]))
+            if _on != "index" else j))),
+    raises={"TypeError": lambda data, _kind, _on:
+            _kind == "scalar" or len(data) == 0 or (_on == "key" and _kind == "list") or (_on == "index" and _kind == "dict")},
+    serves=["C03"],
+    note="a key condition in the generic slot makes the part match nothing in a list (TypeError), an index condition nothing in a mapping",
+)
